@@ -26,6 +26,9 @@ RULE = ('(a) exhaustive: every list length n in 1..N (N=300 quick, 640 thorough)
         'query compared with a from-scratch computation; non-trivial = a truncate to a length '
         'that is not segment-aligned followed by an extension and a query. Thorough also '
         'enumerates all init/extend/truncate sequences up to length 3 over lengths <= 24. '
+        '(f) caches initialised over 60,000..270,000 hashes (lengths around 2^16, 10^5, 2^17, '
+        '2^18), queried at the initial length, below it and after an extension, against the '
+        'direct computation. '
         '(e) the checks of (a) on lists with repeated hashes (alphabet of 1..3 values, length '
         '<= 40, plus fixed shapes such as [a,a], [a,b,c,c], [a,b,a,b]): the TSC marker is '
         'positional; non-trivial = two sibling leaves are equal. '
@@ -586,8 +589,72 @@ def run_duplicates(ctx):
     hyp_run(ctx, 'c12.duplicates', DUP_CASE, body, ctx.pick(300, 20000), frac=0.3)
 
 
+# ---- caches over very long sources --------------------------------------------------------------
+#
+# The header cache of a production server is initialised over several hundred thousand hashes, a
+# per-block cache over up to millions: lengths around 2^16, 10^5, 2^17, 2^18.
+
+LARGE_LENGTHS = [65_535, 65_536, 65_537, 99_999, 100_000, 100_001, 131_071, 131_072, 131_073,
+                 200_001, 262_143, 262_145]
+LARGE_CASE = st.tuples(st.sampled_from(LARGE_LENGTHS) | st.integers(60_000, 270_000),
+                       st.integers(0, 10 ** 6), st.integers(0, 10 ** 6)).map(list)
+_large_leaves = []
+
+
+def large_leaves(n):
+    while len(_large_leaves) < n:
+        _large_leaves.append(leaf(len(_large_leaves), 3))
+    return _large_leaves[:n]
+
+
+async def _run_large_case(case):
+    length, a, b = case
+    merkle = Merkle()
+    n = length + 40
+    items = large_leaves(n)
+
+    async def source(start, count):
+        return items[start:start + count]
+    cache = MerkleCache(merkle, source)
+    await cache.initialize(length)
+    for q_len, idx in ((length, a % length), (length, length - 1), (1 + b % length, 0),
+                       (length + 33, a % (length + 33)), (length + 33, length + 32)):
+        idx = idx % q_len
+        branch, root = await cache.branch_and_root(q_len, idx)
+        want_branch, want_root = merkle.branch_and_root(items[:q_len], idx)
+        if root != want_root or branch != want_branch:
+            return (f'cache initialised over {length} hashes: branch_and_root({q_len},{idx}) '
+                    f'{"root" if root != want_root else "branch"} differs from the direct '
+                    f'computation')
+    return None
+
+
+def large_body(ctx):
+    def body(case):
+        loop = asyncio.new_event_loop()
+        try:
+            try:
+                msg = loop.run_until_complete(_run_large_case(case))
+            except Exception as e:
+                msg = f'cache initialised over {case[0]} hashes: raised {e!r}'
+        finally:
+            loop.close()
+        ctx.record(case=case, nontrivial=True, classes=['large.case'],
+                   sample={'check': 'c12.large', 'case': case})
+        if msg:
+            raise Violation(msg, 'large')
+    return body
+
+
+def run_large(ctx):
+    # (the direct Merkle computation used as the oracle here is itself checked against the
+    # independent reference in (a) for n <= 640 and is length-generic)
+    hyp_run(ctx, 'c12.large', LARGE_CASE, large_body(ctx), ctx.pick(2, 40), shrink=False, frac=0.3)
+
+
 def run(ctx):
     run_branch_length(ctx)
+    run_large(ctx)
     run_duplicates(ctx)
     run_cache(ctx)
     if not ctx.quick:
@@ -616,6 +683,12 @@ def replay(ctx, check, case):
     if check == 'c12.cache':
         msg, _ = run_cache_case(case)
         return (msg, 'cache') if msg else None
+    if check == 'c12.large':
+        try:
+            large_body(ctx)(case)
+        except Violation as v:
+            return v.message, v.sig
+        return None
     if check == 'c12.duplicates':
         try:
             dup_body(ctx)(case)
